@@ -87,3 +87,85 @@ Theorem C13_pipelined_request_dropped : exists g ls s x,
   /\ st x = CClosed /\ resp x = 1%nat /\ pbuf x = [KA] /\ eof x = false.
 Proof. exact pipelined_request_dropped. Qed.
 Print Assumptions C13_pipelined_request_dropped.
+
+(* ... and not only in that run: an idle keep-alive connection with a request in its parser, nothing on the socket
+   and a client that waits for its answer is never served, whatever else happens, for as long as the client waits
+   ([runr]: a selector that reports only what is readable) *)
+Theorem C13_buffered_request_never_served : forall g n0 c ls s s', J g n0 c s -> Forall (client_silent c) ls ->
+  runr g s ls = Some s' -> waiting n0 s' c.
+Proof. exact buffered_request_never_served. Qed.
+Print Assumptions C13_buffered_request_never_served.
+
+Example buffered_hypotheses_satisfiable : J g21 1 0 s21k /\ exists x, getc s21k 0%nat = Some x /\ pbuf x = [KA].
+Proof. split. exact s21k_J. eexists. split. vm_compute. reflexivity. reflexivity. Qed.
+
+(* ---- what holds once D20 and D21 are excluded by hypothesis ---- *)
+
+(* served as long as a handler thread is free: the loop is polling (mpc = MSel: not the D20 situation) and the
+   request is visible to the selector (In (EvRd c) evs with a realistic selector: not the D21 situation) *)
+Theorem C13_served_if_thread_free : forall g s evs c, reachable g s -> mpc s = MSel -> evs_ok g s evs = true ->
+  In (EvRd c) evs -> dispatchable s c ->
+  exists n s', run g s (LMain evs false :: repeat m_ n) = Some s' /\ queued s' c
+               /\ (pool_busy s' < threads g -> exists s'', step g s' (LStart c) = Some s'').
+Proof. exact served_if_thread_free. Qed.
+Print Assumptions C13_served_if_thread_free.
+
+(* idle keep-alive connections are closed once the keep-alive time has passed: within one loop period, in either
+   branch of the loop (so also at capacity) *)
+Theorem C13_keepalive_expires : forall g s c pre rest, mpc s = MWait -> orphan s = false ->
+  keep s = pre ++ c :: rest ->
+  (forall k, In k (pre ++ [c]) -> exists x, getc s k = Some x /\ tmo x <= clock s) ->
+  exists s', run g s (repeat m_ (1 + 2 * (length pre + 1))) = Some s'
+             /\ exists x, getc s' c = Some x /\ st x = CClosed.
+Proof. exact keepalive_expires. Qed.
+Print Assumptions C13_keepalive_expires.
+
+(* returns to zero: partial - when every connection has been closed the counter is 0 (that they do get closed when
+   the clients leave is C13_served_if_thread_free for the EOF event + the Finish step; refuted at capacity, above) *)
+Theorem C13_returns_to_zero_partial : forall g s, reachable g s ->
+  (forall c x, getc s c = Some x -> st x = CClosed \/ st x = CPending) -> nr_conns s = 0.
+Proof. exact all_closed_zero. Qed.
+Print Assumptions C13_returns_to_zero_partial.
+
+(* ---- non-vacuity ---- *)
+Definition gx : cfg := mkCfg 2 3 1 0 1.
+Definition lx1 : list label :=
+  [LConnect; LMain [EvAcc 0%nat] false; m_; m_; m_; m_; LSend 0%nat [KA]].
+Definition sx1 : state := the (run gx (init gx) lx1) (init gx).
+
+Example served_hypotheses_satisfiable :
+  run gx (init gx) lx1 = Some sx1 /\ mpc sx1 = MSel /\ evs_ok gx sx1 [EvRd 0%nat] = true /\ dispatchable sx1 0%nat.
+Proof.
+  split. vm_compute. reflexivity. split. reflexivity. split. reflexivity.
+  eexists. split. vm_compute. reflexivity. split. vm_compute. auto. left. reflexivity.
+Qed.
+
+Definition lx2 : list label :=
+  lx1 ++ [LMain [EvRd 0%nat] false; m_; LStart 0%nat; LHandle 0%nat; LFinish 0%nat; LFinLock 0%nat].
+Definition sx2 : state := the (run gx (init gx) lx2) (init gx).          (* idle keep-alive connection, deadline 1 *)
+Definition sx3 : state := the (run gx sx2 [LTick]) sx2.                     (* ... which has passed *)
+
+Example accounting_example : nr_conns sx2 = 1 /\ n_counted sx2 = 1 /\ keep sx2 = [0%nat] /\ regd sx2 = [0%nat].
+Proof. vm_compute. repeat split. Qed.
+
+Example expires_hypotheses_satisfiable :
+  reachable gx sx3 /\ mpc sx3 = MWait /\ orphan sx3 = false /\ keep sx3 = [] ++ 0%nat :: []
+  /\ exists x, getc sx3 0%nat = Some x /\ st x = CKeep /\ tmo x <= clock sx3.
+Proof.
+  split. exists (lx2 ++ [LTick]). vm_compute. reflexivity. split. reflexivity. split. reflexivity. split. reflexivity.
+  eexists. split. vm_compute. reflexivity. split. reflexivity. vm_compute. discriminate.
+Qed.
+
+(* the reaper takes it only now: one tick earlier the same two main-thread steps put it back *)
+Example not_before_example :
+  (exists x, getc (the (run gx sx2 [m_; m_]) sx2) 0%nat = Some x /\ st x = CKeep)
+  /\ (exists x, getc (the (run gx sx3 [m_; m_]) sx3) 0%nat = Some x /\ st x = CExpiring).
+Proof. split; vm_compute; eexists; split; reflexivity. Qed.
+
+Example stalled_example : reachable g20 s20a /\ stalled g20 s20a.
+Proof. split. exact s20a_reach. exact s20a_stalled. Qed.
+
+(* a finish_request close and a reaper close really occur (close_requires is not vacuous) *)
+Example closes_occur :
+  (exists x, getc (the (run gx sx3 [m_; m_; m_]) sx3) 0%nat = Some x /\ st x = CClosed /\ closes x = 1%nat).
+Proof. vm_compute. eexists. repeat split. Qed.
